@@ -738,6 +738,21 @@ def load_table():
         return json.load(fh)
 
 
+def copies_of(fa, op):
+    """locals an operand is a plain copy of (the operand's own local included)"""
+    out = set()
+    pl = op_place(op)
+    for _ in range(8):
+        if pl is None or pl["p"]:
+            break
+        out.add(pl["l"])
+        d = fa.single_def(pl["l"])
+        if d is None or d[2] != "assign" or d[3]["k"] != "use":
+            break
+        pl = op_place(d[3]["op"])
+    return out
+
+
 def guarded_locals(fa, g):
     """Locals a guard speaks about, identified without their source names: by where the value
     ends up ("sink": an argument position of a named callee, or a field of a constructed
@@ -942,7 +957,7 @@ def check_guard(ctx, crate, E, g):
             r = root_of(fa, t["op"])
             if r[0] == "rv" and r[1]["k"] == "binop" and r[1]["op"] in ("Eq", "Ne"):
                 x, c = root_of(fa, r[1]["a"]), const_eval(fa, r[1]["b"])
-                if x[0] == "local" and x[1] in ls and c == 0:
+                if ((x[0] == "local" and x[1] in ls) or copies_of(fa, r[1]["a"]) & ls) and c == 0:
                     f_t, t_t = bool_switch_targets(t)
                     zero = t_t if r[1]["op"] == "Eq" else f_t
                     if not (fa.reachable(zero) & ok_b) and all(fa.dominates(b, o) for o in ok_b):
